@@ -34,12 +34,18 @@ RULE = ('cases are of three kinds. func: (frequency grid, amplitude vector, targ
         '(also a 1e6 offset on a 1e-3 signal) or synthetic (constant, spike, decaying, maximum at first/last bin, plateaus at '
         'the ends, signed, complex128/64, float32, int64/32/16/8, uint8/16 spanning the dtype range incl. the most negative value of the signed dtypes), scaled by 1e-12..1e12; '
         'targets: log-random inside the grid, exactly on the grid, below f1/3, above 3*fmax, None (= the grid), float32 / '
-        'integer, the frequency array object itself; each array also as strided view, reversed view or read-only array. '
+        'integer, the frequency array object itself, target sets of 1, 2, 31..33, 63..65, 127..129, 256 entries, ascending / '
+        'descending / shuffled, with repeated entries, with the first and last Fourier frequency exactly; spectra of 1-3 bins; '
+        'one bin 1e3..1e12 times the rest; awkward time steps (gen.awkward_dt); tail-heavy and trend+Nyquist records; each '
+        'array also as strided view, reversed view or read-only array. '
         'signal: (record in any container/dtype, dt, class, way the targets are set, b, ratios incl. 0 / 1e-12 / 0.999999) '
         'through the object API, the custom-matrix form (matrix float64/float32/Fortran-ordered/read-only/nested list) and '
         'the bandwidth functions, a second object of the same shape processed in between. history: 6..14 operations on one '
         'object (reads, regenerations with options, every way of setting the targets, value mutators same/shorter/longer, '
-        'explicit Fourier regeneration, bandwidth / custom-matrix calls, twins sharing a caller array). large: 12 (quick) / 96 '
+        'explicit Fourier regeneration with even and odd n, bandwidth / custom-matrix calls (1-3 columns), twins sharing a caller '
+        'array, deep copies of warm objects (then mutated), objects derived by interp_to_approx_dt and the real part of '
+        'fas2signal); bandwidth functions with 1, 2, 30..65 smoothing frequencies, the band open at the first / last / both '
+        'smoothing frequencies, ratio 0, 1e-300, 1e-12, 1-1e-12, nextafter(1, 0). large: 12 (quick) / 96 '
         '(thorough) problems with n_fa * n_targets next to 2**18 .. 2**23 (thorough 2**24), just below / just above / 1.4 x each '
         'power of two, as many targets on a 1-8k-bin grid, as the None default, or as a long spectrum with ~50 targets, plus '
         'a 170000-sample Signal with the default 50 smoothing frequencies; there the scalar oracle judges first, last and '
@@ -61,6 +67,10 @@ ASSUMPTIONS = ['frequencies and targets are finite, positive real ndarrays (a si
                'object-level calls are judged against the Fourier spectrum the object held at call entry (or, when none was '
                'cached, the dt x DFT of a snapshot of its values with default padding); cached reads of '
                'Signal.smooth_fa_spectrum after an explicit Fourier regeneration are C04 territory (counted)',
+               'the local-scale clause allows 1e-9 of each reference value plus 16 x the oracle\'s first-order bound of the '
+               'window\'s own rounding error (next to a zero of sin the relative error of a weight is unbounded); it is evaluated '
+               'in the double-precision regime and for problems the oracle judges completely',
+               'complex-typed records returned by fas2signal are not judged as such (their real part is analysed)',
                'oracle vf/oracles/konno.py is correct (math.log10/sin scalar loop, fsum)']
 RTOL = 1e-9
 RTOL_F32 = 2e-4
@@ -167,6 +177,19 @@ def _columns(fnz, tg, band):
         if len(_MEMO) > 6:
             _MEMO.clear()
         c = O.weight_columns(fnz.tolist(), tg.tolist(), float(band))
+        _MEMO[key] = c
+    return c
+
+
+def _sens_columns(fnz, tg, band):
+    key = 's' + core.digest(fnz, tg, float(band))
+    c = _MEMO.get(key)
+    if c is None:
+        if len(_MEMO) > 8:
+            _MEMO.clear()
+        b = float(band)
+        fl = fnz.tolist()
+        c = [[O.window_sensitivity(f, fc, b) for f in fl] for fc in tg.tolist()]
         _MEMO[key] = c
     return c
 
@@ -299,6 +322,16 @@ def _purity_args(ctx, at, pre, raw):
               '%s changed its argument(s) %s' % (at, bad))
 
 
+def _ownership(ctx, at, pre, result, raw):
+    """The returned array owns its data: no memory shared with any array argument."""
+    if not isinstance(result, np.ndarray) or not pre:
+        return
+    shared = [('%s%s' % (type(o).__name__, getattr(o, 'shape', ''))) for o, sn in pre.values()
+              if isinstance(o, np.ndarray) and (result is o or np.may_share_memory(result, o))]
+    ctx.check(not shared, 'ownership.result-owns-its-data', lambda: _wit(at, raw, shared_with=shared),
+              '%s returned an array that shares memory with its argument(s) %s' % (at, shared))
+
+
 def _purity_sig(ctx, at, asig, st, smooth_may_regenerate, targets_may_change, raw, extra=()):
     bad = _sig_changed(asig, st, smooth_may_regenerate, targets_may_change) + list(extra)
     ctx.check(not bad, 'purity.signal-state-unchanged', lambda: _wit(at, raw, changed=bad),
@@ -324,6 +357,20 @@ def check_smooth(ctx, at, freqs, spec, targets, band, result, clause='smooth==we
     ctx.check(ok_eq, clause + sfx + (LARGE_SFX if large else ''),
               lambda: _wit(at, raw, got=gsub, expected=ref, band=band),
               '%s(n_f=%d, n_targets=%d, band=%r): %s' % (at, len(fnz), len(tg), band, desc))
+    if extras and not sfx and not large and ok_eq and ref is not None:
+        # the same comparison relative to the LOCAL scale (the reference value of each target itself, plus the oracle's
+        # first-order bound of the window's own rounding error): a spike 1e12 times the rest must not hide the rest
+        bound = np.array(O.smooth_error_bound(_columns(fnz, tg, band), _sens_columns(fnz, tg, band), anz.tolist()), dtype=float)
+        allowed = RTOL * np.abs(ref) + 16 * bound + 1e-300
+        with np.errstate(invalid='ignore'):
+            err = np.abs(np.asarray(got, dtype=complex) - ref) if got.dtype.kind == 'c' else np.abs(got - ref)
+        okl = got.shape == ref.shape and bool(np.all(err <= allowed))
+        ctx.check(okl, 'smooth==weighted-mean(local scale)',
+                  lambda: _wit(at, raw, got=got, expected=ref, allowed=allowed, band=band),
+                  '%s(n_f=%d, n_targets=%d, band=%r): worst |diff|/allowed = %.3g at target %d (got %r, expected %r, allowed %.3g)'
+                  % ((at, len(fnz), len(tg), band) + ((float(np.max(err / allowed)), int(np.argmax(err / allowed)),
+                                                        got[int(np.argmax(err / allowed))], ref[int(np.argmax(err / allowed))],
+                                                        allowed[int(np.argmax(err / allowed))]) if got.shape == ref.shape else (np.inf, -1, None, None, 0.0))))
     if not extras:
         return
     n_on = int(np.sum(np.isin(tg, fnz)))
@@ -355,6 +402,7 @@ def _post_calc(args, kwargs, result, pre):
     f, a, t = _sn(pre, freqs), _sn(pre, spec), _sn(pre, targets)
     raw = _raw_func(f, a, t, band) if CASE is None else None
     _purity_args(CTX, 'calc_smooth_fa_spectrum', pre, raw)
+    _ownership(CTX, 'calc_smooth_fa_spectrum', pre, result, raw)
     check_smooth(CTX, 'calc_smooth_fa_spectrum', f, a, t, band, result, raw=raw)
 
 
@@ -366,6 +414,7 @@ def _post_generate(args, kwargs, result, pre):
     f, a, t = _sn(pre, freqs), _sn(pre, spec), _sn(pre, targets)
     raw = _raw_func(f, a, t, band) if CASE is None else None
     _purity_args(CTX, 'generate_smooth_fa_spectrum', pre, raw)
+    _ownership(CTX, 'generate_smooth_fa_spectrum', pre, result, raw)
     check_smooth(CTX, 'generate_smooth_fa_spectrum', f, a, t, band, result, clause='alias.generate==weighted-mean',
                  extras=False, raw=raw)
 
@@ -381,6 +430,7 @@ def _post_matrix(args, kwargs, result, pre):
     if CASE is None:
         raw = _raw_func(freqs, np.ones(len(np.asarray(freqs))), targets, band)
     _purity_args(ctx, at, pre, raw)
+    _ownership(ctx, at, pre, result, raw)
     d = _domain(ctx, freqs, None, targets, band, at)
     if d is None:
         return
@@ -576,6 +626,19 @@ def _check_band(ctx, who, asig, pre, ratio, ratio_eff, lo, hi, prefix):
     fpk = [float(f[i]) for i in peaks]
     if 0 in peaks or len(f) - 1 in peaks:
         ctx.observe('bandwidth-peak-at-first-or-last-target')
+    lim = float(np.max(s)) * ratio_eff
+    open_lo, open_hi = bool(s[0] > lim), bool(s[-1] > lim)
+    if open_lo or open_hi:
+        # the band is still open at an end of the smoothing-frequency range: the limit is that end itself
+        ctx.observe('bandwidth-above-limit-at:%s' % ('both ends' if open_lo and open_hi else ('first target' if open_lo else 'last target')))
+        if len(f) <= 2:
+            ctx.observe('bandwidth-calls-with-1-or-2-targets')
+        okk = ((lo is None or any(lo == f[i] for i in first_ok)) and (hi is None or any(hi == f[i] for i in last_ok))
+               and (lo is None or hi is None or lo <= hi) and all((lo is None or lo <= p) and (hi is None or p <= hi) for p in fpk))
+        ctx.check(okk, 'bandwidth.open-end: ordered, brackets peak, ==first/last above limit', wit,
+                  '%s(ratio=%r) -> (%r, %r) with the smoothed spectrum above the limit at the %s; expected first in %s, last in %s, peak at %s'
+                  % (who, ratio, lo, hi, 'first and last target' if open_lo and open_hi else ('first target' if open_lo else 'last target'),
+                     [float(f[i]) for i in first_ok][:4], [float(f[i]) for i in last_ok][:4], fpk[:4]))
     if prefix == 'sigrange':
         ok = (lo <= hi) and all(lo <= p <= hi for p in fpk)
         ctx.check(ok, 'sigrange.ordered+brackets-peak', wit,
@@ -675,6 +738,7 @@ def install(ctx):
 
 # ------------------------------------------------------------------------------------------------ workload: generators
 BANDS = [5, 10, 20, 40, 100]
+TARGET_SIZES = [1, 1, 2, 2, 31, 32, 33, 63, 64, 65, 127, 128, 129, 256]
 POW2_NEIGHBOURS = [3, 4, 5, 7, 8, 9, 15, 16, 17, 31, 32, 33, 63, 64, 65, 127, 128, 129, 255, 256, 257, 511, 512, 513]
 INT_DTYPES = ['int64', 'int32', 'int16', 'int8', 'uint8', 'uint16']
 VIEWS = [None, None, None, None, 'stride2', 'reversed', 'readonly']
@@ -738,8 +802,11 @@ def fourier_grid(n, dt):
 
 
 def draw_dt(rng):
-    if rng.random() < 0.25:
+    u = rng.random()
+    if u < 0.25:
         return float(10 ** rng.uniform(-9, 3))
+    if u < 0.35 and hasattr(gen, 'awkward_dt'):
+        return gen.awkward_dt(rng, int(rng.choice([3, 7, 11, 49, 93])))
     return gen.dt(rng)
 
 
@@ -752,6 +819,14 @@ def draw_record(rng, n):
     elif u < 0.20:
         x = 1e6 + 1e-3 * x / (np.max(np.abs(x)) or 1.0)
         cls = 'offset1e6+' + cls
+    elif u < 0.25 and n >= 8:
+        y = np.zeros(n)
+        k = max(2, n // 8)
+        y[-k:] = x[:k]                      # all the action in the last 1/8 of the record, ends on a non-zero sample
+        x, cls = y, 'tail-heavy+' + cls
+    elif u < 0.29:
+        x = np.linspace(-1, 2, n) * (np.max(np.abs(x)) or 1.0) + 0.3 * (-1.0) ** np.arange(n) * (np.max(np.abs(x)) or 1.0)
+        cls = 'trend+nyquist'
     return x, cls
 
 
@@ -768,6 +843,29 @@ def draw_targets(rng, fnz, allow_none=True, sort=None, subrange=False):
         return None, 'default-grid'
     f1, fm = float(fnz[0]), float(fnz[-1])
     lo, hi = (np.log10(f1), np.log10(fm)) if fm > f1 else (np.log10(f1 / 2), np.log10(f1 * 2))
+    u = rng.random()
+    if not subrange and u < 0.22:
+        # sized target sets: 1, 2 and lengths at / around powers of two; first and last Fourier frequency exactly
+        n_t = int(rng.choice(TARGET_SIZES))
+        t = 10 ** rng.uniform(lo - 0.7, hi + 0.7, size=n_t)
+        kind = 'sized-%d' % n_t if n_t <= 2 else 'sized-pow2-neighbour'
+        v = rng.random()
+        if v < 0.5:
+            t[0] = f1
+            if n_t > 1:
+                t[-1] = fm
+            kind += '+first/last-bin'
+        if n_t > 2 and v > 0.6:
+            k = int(rng.integers(1, max(2, n_t // 3)))
+            t[rng.integers(0, n_t, size=k)] = t[int(rng.integers(n_t))]          # repeated entries
+            kind += '+repeated'
+        order = sort if sort is not None else ['asc', 'desc', 'shuffled'][int(rng.integers(3))]
+        if order is True or order == 'asc':
+            t = np.sort(t)
+        elif order == 'desc':
+            t = np.sort(t)[::-1].copy()
+            kind += '+descending'
+        return t.astype(float), kind
     if subrange:
         third = (hi - lo) / 3
         lo, hi = (lo, lo + third) if rng.random() < 0.5 else (hi - third, hi)
@@ -820,7 +918,7 @@ def int_spectrum(rng, points, dtype, with_min=False):
     return a
 
 
-SYNTH = ['const', 'spike', 'decay', 'max-first', 'max-last', 'plateau-ends', 'signed', 'complex', 'c64', 'f32', 'loggrid',
+SYNTH = ['const', 'spike', 'spike-dyn', 'spike-dyn', 'decay', 'max-first', 'max-last', 'plateau-ends', 'signed', 'complex', 'c64', 'f32', 'loggrid',
          'int', 'int', 'int-small']
 
 
@@ -852,7 +950,7 @@ def gen_func_case(rng, long_n=None):
         if n < 3:
             reject = 'record-of-%d-sample(s): no non-zero-frequency bin' % n
     else:
-        points = int(rng.choice([2, 3, 4, 5, 8, 16, 33, 64, 100, 128, 256])) if rng.random() < 0.6 else int(rng.integers(2, 257))
+        points = int(rng.choice([2, 2, 3, 3, 4, 4, 5, 8, 16, 33, 64, 100, 128, 256])) if rng.random() < 0.6 else int(rng.integers(2, 257))
         u = rng.random()
         if src == 'loggrid':
             freqs = np.concatenate([[0.0], np.sort(10 ** rng.uniform(-2, 2, size=points - 1))])
@@ -874,6 +972,10 @@ def gen_func_case(rng, long_n=None):
             spec[int(rng.integers(1, points))] = amp
             if rng.random() < 0.5:
                 spec += 1e-3 * amp
+        elif src == 'spike-dyn':
+            # one bin 1e3 .. 1e12 times larger than the rest (judged relative to the local scale as well)
+            spec = (0.5 + np.abs(rng.normal(size=points))) * amp
+            spec[int(rng.integers(1, points))] *= float(10 ** rng.uniform(3, 12))
         elif src == 'decay':
             spec = amp / (1.0 + ff / (ff[1] if points > 1 else 1.0)) ** rng.uniform(0.5, 3)
         elif src == 'max-first':
@@ -977,7 +1079,7 @@ def draw_ratio(rng):
     if u < 0.25:
         return None
     if u < 0.40:
-        return float(rng.choice([0.0, 1e-12, 0.999999]))
+        return float(rng.choice([0.0, 1e-300, 1e-12, 0.01, 0.999999, 1 - 1e-12, float(np.nextafter(1.0, 0.0))]))
     return float(rng.choice([0.5, 0.9, 0.25, float(rng.uniform(0.05, 0.98))]))
 
 
@@ -986,7 +1088,7 @@ def draw_sig_ratio(rng):
     if u < 0.25:
         return None
     if u < 0.35:
-        return float(rng.choice([1.0 + 1e-9, 1e12]))
+        return float(rng.choice([1.0 + 1e-9, 1 + 1e-12, float(np.nextafter(1.0, 2.0)), 1e12, 1e300]))
     return float(rng.choice([2.0, 4.0, 100.0, float(rng.uniform(1.2, 50))]))
 
 
@@ -1031,7 +1133,7 @@ def gen_signal_case(rng, long_n=None, default_targets=False):
     case = {'kind': 'signal', 'cls': 'AccSignal' if rng.random() < 0.5 else 'Signal', 'values': x, 'dt': dt, 'how': how,
             'values_form': VALUE_FORMS[int(rng.integers(len(VALUE_FORMS)))] if long_n is None else None,
             'targets': targets, 'targets_form': draw_target_form(rng) if how != 'gen_arg' else [None, 'readonly', 'stride2'][int(rng.integers(3))],
-            'range': rng_lim, 'range_form': ['tuple', 'list', 'array'][int(rng.integers(3))], 'n_points': int(rng.choice([1, 2, 7, 30, 50])),
+            'range': rng_lim, 'range_form': ['tuple', 'list', 'array'][int(rng.integers(3))], 'n_points': int(rng.choice([1, 1, 2, 2, 7, 30, 31, 32, 33, 50, 64, 65])),
             'band': draw_band(rng)[0], 'band_form': ['py', 'np64', '0d'][int(rng.integers(3))],
             'ratio': draw_ratio(rng), 'sig_ratio': draw_sig_ratio(rng), 'style': ['pos', 'kw'][int(rng.integers(2))],
             'matrix_form': [None, None, 'f32', 'fortran', 'readonly', 'nested-list'][int(rng.integers(6))],
@@ -1077,7 +1179,7 @@ def gen_history_case(rng):
         elif name in ('by_range', 'dep_range'):
             lo = float(10 ** rng.uniform(-2, 0.5))
             op['limits'] = (lo, lo * float(10 ** rng.uniform(0.3, 2.5)))
-            op['n_points'] = int(rng.choice([1, 2, 7, 30]))
+            op['n_points'] = int(rng.choice([1, 2, 7, 30, 32, 33]))
             op['form'] = ['tuple', 'list', 'array'][int(rng.integers(3))]
         elif name == 'dep_points':
             op['value'] = int(rng.choice([2, 5, 31]))
@@ -1096,7 +1198,7 @@ def gen_history_case(rng):
             op['cut'] = (lo, float(rng.uniform(lo * 1.5, 0.9)))        # fractions of the Nyquist frequency
         elif name == 'gen_fa':
             op['p2_plus'] = int(rng.integers(0, 3))
-            op['n'] = None if rng.random() < 0.6 else 2 * int(rng.integers(n // 2 + 1, n + 20))
+            op['n'] = None if rng.random() < 0.6 else 2 * int(rng.integers(n // 2 + 1, n + 20)) + int(rng.integers(0, 2))
         elif name == 'bw':
             op['fn'] = ['freqs', 'f_min', 'f_max', 'sigrange'][int(rng.integers(4))]
             op['ratio'] = draw_sig_ratio(rng) if op['fn'] == 'sigrange' else draw_ratio(rng)
@@ -1106,7 +1208,7 @@ def gen_history_case(rng):
             op['form'] = [None, 'f32', 'fortran', 'readonly', 'nested-list'][int(rng.integers(5))]
             op['style'] = ['pos', 'kw'][int(rng.integers(2))]
         elif name == 'twin':
-            op['how'] = ['ctor-from-values', 'reset-from-values', 'same-caller-array'][int(rng.integers(3))]
+            op['how'] = ['ctor-from-values', 'reset-from-values', 'same-caller-array', 'deepcopy', 'deepcopy+mutate', 'interp', 'fas2signal'][int(rng.integers(7))]
             op['switch'] = bool(rng.random() < 0.5)
         ops.append(op)
     case = {'kind': 'history', 'cls': 'AccSignal' if rng.random() < 0.5 else 'Signal', 'values': x, 'dt': dt,
@@ -1459,7 +1561,7 @@ def run_signal_case(eqsig, ctx, c):
               eqsig.calc_smooth_fa_spectrum_w_custom_matrix, s, c['matrix'])
     _konno_custom(eqsig, ctx, s, b_eff, c.get('matrix_form'), style, v, scale, rt)
     if c.get('random_matrix_seed') is not None:
-        rm = np.random.default_rng(c['random_matrix_seed']).normal(size=(len(s.fa_freqs) - 1, 3))
+        rm = np.random.default_rng(c['random_matrix_seed']).normal(size=(len(s.fa_freqs) - 1, 1 + c['random_matrix_seed'] % 3))
         _call(ctx, 'custom-matrix==sum|A_i|M_ij(i>=1)', 'calc_smooth_fa_spectrum_w_custom_matrix',
               eqsig.calc_smooth_fa_spectrum_w_custom_matrix, s, view_of(rm, c.get('matrix_form') if c.get('matrix_form') != 'f32' else None))
     # bandwidth limits
@@ -1561,7 +1663,7 @@ def run_history_case(eqsig, ctx, c):
             mutate('butter_pass', s.butter_pass, (op['cut'][0] * nyq, op['cut'][1] * nyq))
         elif name == 'gen_fa':
             if op.get('n') is not None:
-                mutate('gen_fa_spectrum(n)', s.gen_fa_spectrum, n=max(op['n'], 2 * ((len(np.asarray(s.values)) + 1) // 2)))
+                mutate('gen_fa_spectrum(n)', s.gen_fa_spectrum, n=max(op['n'], 2 * ((len(np.asarray(s.values)) + 1) // 2) + op['n'] % 2))
             else:
                 mutate('gen_fa_spectrum(p2_plus)', s.gen_fa_spectrum, p2_plus=op.get('p2_plus', 0))
         elif name == 'clear_cache':
@@ -1581,7 +1683,7 @@ def run_history_case(eqsig, ctx, c):
                 else:
                     _konno_custom(eqsig, ctx, s, 40, op.get('form'), op.get('style'), None, scale, rt)
             else:
-                rm = np.random.default_rng(op['seed']).normal(size=(len(s.fa_freqs) - 1, 2))
+                rm = np.random.default_rng(op['seed']).normal(size=(len(s.fa_freqs) - 1, 1 + op['seed'] % 2))
                 rm = rm.astype(np.float32) if op.get('form') == 'f32' else view_of(rm, op.get('form'))
                 _call(ctx, 'custom-matrix==sum|A_i|M_ij(i>=1)', 'calc_smooth_fa_spectrum_w_custom_matrix',
                       eqsig.calc_smooth_fa_spectrum_w_custom_matrix, s, rm)
@@ -1597,6 +1699,20 @@ def run_history_case(eqsig, ctx, c):
                 elif op['how'] == 'reset-from-values':
                     tw = cls(np.zeros(len(np.asarray(s.values))), s.dt, smooth_fa_freqs=s.smooth_fa_freqs)
                     tw.reset_values(s.values)
+                elif op['how'] in ('deepcopy', 'deepcopy+mutate'):
+                    tw = copy.deepcopy(s)               # a warm object copied by the user: its memo travels with it
+                    rec = _GEN.get(s)
+                    if rec is not None and s._fa_spectrum is rec['fa_obj'] and s._smooth_fa_freqs is rec['tg_obj']:
+                        _GEN[tw] = dict(rec, fa_obj=tw._fa_spectrum, tg_obj=tw._smooth_fa_freqs)   # harness book-keeping only
+                    if op['how'] == 'deepcopy+mutate':
+                        tw.reset_values(np.asarray(tw.values)[::-1] * 0.5)
+                elif op['how'] == 'interp':
+                    tw = eqsig.interp_to_approx_dt(s, s.dt * 0.5) if c.get('cls') == 'AccSignal' else cls(np.asarray(s.values) * 1.0, s.dt * 2)
+                    tw.smooth_fa_freqs = np.array(s.smooth_fa_freqs, copy=True)
+                elif op['how'] == 'fas2signal':
+                    back = eqsig.fas2signal(s.fa_spectrum, s.dt, stype='signal' if c.get('cls') != 'AccSignal' else 'acc')
+                    ctx.observe('complex-typed record from fas2signal (its real part is analysed)')
+                    tw = cls(np.real(back.values), back.dt, smooth_fa_freqs=np.array(s.smooth_fa_freqs, copy=True))
                 else:
                     tw = cls(values, c['dt'], smooth_fa_freqs=s.smooth_fa_freqs)
                 ok, r = _call(ctx, 'signal.smooth_fa_spectrum==weighted-mean', 'Signal.smooth_fa_spectrum', lambda: tw.smooth_fa_spectrum)
@@ -1826,6 +1942,13 @@ def run_shard(ctx):
         parts = cls.split(':')
         hist_cls = cls if case['kind'] == 'large' else (':'.join(parts[:2]) if case['kind'] != 'signal' else ':'.join(parts[::2]))
         ctx.case(core.digest(case), nontrivial=_nontrivial(case), cls=hist_cls, sample=_sample_of(case, cls))
+        if case['kind'] == 'func' and not case.get('long'):
+            for tag in ('sized-1', 'sized-2', 'sized-pow2-neighbour', 'first/last-bin', 'repeated', 'descending', 'same-object-as-freqs', 'default-grid'):
+                if tag in parts[-1].split('+') or parts[-1].startswith(tag):
+                    ctx.observe('target-class:' + tag)
+            nb = len(case['freqs']) - (1 if len(case['freqs']) and np.asarray(case['freqs'])[0] == 0 else 0)
+            if 1 <= nb <= 3:
+                ctx.observe('spectra-of-1-to-3-bins')
         run_case(eqsig, ctx, case)
     ctx.note('monitored_calls', dict(attach.CALLS))
 
@@ -1854,6 +1977,8 @@ MIN_EVALS['quick'] = {
     'sigrange.ordered+brackets-peak': 220, 'sigrange==first/last above max/ratio': 220,
     'relation.alias==direct': 650, 'relation.matrix-form==direct-form': 750, 'relation.custom-matrix(konno)==object-form': 220,
     'relation.constant-reproduced': 750, 'relation.scaling': 600, 'relation.scaling-pow2-exact': 110,
+    'smooth==weighted-mean(local scale)': 4500, 'ownership.result-owns-its-data': 7000,
+    'bandwidth.open-end: ordered, brackets peak, ==first/last above limit': 700,
     'purity.arguments-unchanged': 8000, 'purity.signal-state-unchanged': 3500, 'state.held-result-unchanged': 1900}
 MIN_EVALS['thorough'] = {k: 18 * v for k, v in MIN_EVALS['quick'].items()}
 LARGE_MIN = {'smooth==weighted-mean(large: target subset)': 15, 'matrix==window/sum(large: target subset)': 5,
